@@ -56,11 +56,14 @@ fn vf_analyze_exact_mapping() {
         vec![T{path:"svc",uses:vec![],ignores:vec!["svc/api/docs"]}, T{path:"svc/api",uses:vec!["lib"],ignores:vec![]}, T{path:"lib",uses:vec![],ignores:vec![]}],
         vec![T{path:"svc",uses:vec![],ignores:vec![]}, T{path:"svc/api",uses:vec!["shared/proto"],ignores:vec![]}, T{path:"svc/api/v1",uses:vec!["lib/x.txt"],ignores:vec!["svc/api/v1/gen"]}, T{path:"lib",uses:vec![],ignores:vec!["lib/README.md"]}],
         vec![T{path:"tools",uses:vec!["lib", "app2"],ignores:vec!["lib/doc"]}, T{path:"lib",uses:vec![],ignores:vec![]}, T{path:"app2",uses:vec![],ignores:vec![]}, T{path:"app",uses:vec!["app2/src"],ignores:vec![]}],
+        // `ignores` entries of DIFFERENT targets nested in one another: each target's own entry counts, not only the most specific one
+        vec![T{path:"app",uses:vec!["shared"],ignores:vec!["shared/docs"]}, T{path:"tools",uses:vec!["shared"],ignores:vec!["shared/docs/api"]}, T{path:"lib",uses:vec!["shared/docs"],ignores:vec!["shared/docs/api/v1"]}],
         // entries written with a trailing slash name directories (section 5: they match what is below them)
         vec![T{path:"tools",uses:vec!["lib/"],ignores:vec![]}, T{path:"app",uses:vec![],ignores:vec!["app/generated/"]}, T{path:"lib",uses:vec![],ignores:vec![]}, T{path:"app2",uses:vec!["app/generated/"],ignores:vec![]}],
     ];
     let change_pool = ["app/x", "app2/x", "app2/src/main.rs", "app-web/i.js", "app/shared/a", "lib/y", "lib/x.txt", "lib/doc/a.md", "lib/README.md", "svc/api/docs/i.md",
-        "svc/api/v1/gen/a", "svc/api/v1/h.rs", "app/generated/out.rs", "svc/m.rs", "shared/proto/a.proto", "tools/t.sh", "unrelated/z", "application/q", "li"];
+        "svc/api/v1/gen/a", "svc/api/v1/h.rs", "app/generated/out.rs", "svc/m.rs", "shared/proto/a.proto", "tools/t.sh", "unrelated/z", "application/q", "li",
+        "shared/docs/api/v1/x.md", "shared/docs/api/i.md", "shared/docs/guide.md", "shared/src/a.rs"];
     let (mut checked, mut bad, mut nontrivial) = (0u64, 0u64, 0u64);
     for (ci, ts) in configs.iter().enumerate() {
         let cfg = mk_cfg(ts);
@@ -85,6 +88,12 @@ fn vf_analyze_exact_mapping() {
             if !lower.iter().all(|p| got.contains(p)) || !got.iter().all(|p| upper.contains(p)) { why = Some(format!("reported targets {:?}, affected targets are {:?}", got, if lower == upper { format!("{:?}", lower) } else { format!("between {:?} and {:?}", lower, upper) })); }
             else if { let mut s = got.clone(); s.sort(); s.dedup(); &s != got } { why = Some(format!("summary {:?} is not sorted and duplicate-free", got)); }
             else if outs[1].targets != *got { why = Some(format!("summary differs with the per-change breakdown requested: {:?} vs {:?}", outs[1].targets, got)); }
+            // C02 / C01: the per-change list names the changes in the order they were given (the change provider hands them over sorted), each once per occurrence - also across the internal batches
+            else if outs[1].changes.as_ref().map(|chs| chs.iter().map(|c| c.path.as_str()).collect::<Vec<_>>() != set).unwrap_or(true) {
+                let got_names: Vec<&str> = outs[1].changes.as_ref().map(|chs| chs.iter().map(|c| c.path.as_str()).collect()).unwrap_or_default();
+                let k = got_names.iter().zip(set.iter()).position(|(a, b)| a != b).unwrap_or(got_names.len().min(set.len()));
+                why = Some(format!("the reported changes are not the given changes in the given order ({} given, {} reported, first difference at position {}: given {:?}, reported {:?}) (C02)", set.len(), got_names.len(), k, set.get(k), got_names.get(k)));
+            }
             else if let Some(chs) = &outs[1].changes {
                 let mut un: Vec<String> = chs.iter().flat_map(|c| c.targets.iter().flatten()).filter(|t| t.reason != AnalyzedChangeTargetReason::Ignores).map(|t| t.path.clone()).collect();
                 un.sort(); un.dedup();
